@@ -244,6 +244,25 @@ pub fn check(c: &Case, obs: &mut Obs) -> Result<(), String> {
     )?;
     // builders
     let pe: Vec<Vec<u8>> = c.parts.iter().map(|x| x.enc()).collect();
+    if c.parts.len() % 2 == 1 {
+        // a rejected call first (the same parts, then one with an invalid header): it must fail
+        // and leave no trace in the calls that follow. (What it leaves in its own output buffer
+        // is not specified: a malformed part is outside "every valid input".)
+        let garbage: &[u8] = [&[0x00u8, 0, 0, 0][..], &[0x60, 0, 0, 1, 0, 0], &[0x20, 0]][c.parts.len() / 2 % 3];
+        let mut sink = Vec::new();
+        let r = nopanic("build_array with an invalid part", || jsonb::build_array(pe.iter().map(|x| x.as_slice()).chain([garbage]), &mut sink))?;
+        if r.is_ok() {
+            return Err(format!("build_array with a part {} succeeded", hex(garbage)));
+        }
+        sink.clear();
+        let r = nopanic("build_object with an invalid part", || {
+            jsonb::build_object(pe.iter().enumerate().map(|(i, x)| (["a", "b", "c"][i % 3], x.as_slice())).chain([("z", garbage)]), &mut sink)
+        })?;
+        if r.is_ok() {
+            return Err(format!("build_object with a part {} succeeded", hex(garbage)));
+        }
+        obs.label("build-after-rejected-build");
+    }
     judge(
         &format!("build_array({:?})", c.parts),
         Ok(M::Arr(c.parts.clone())),
